@@ -370,6 +370,87 @@ def r_tokens(ctx: Ctx, rule: str):
                node=p, detail=v if isinstance(v, str) else ("" if v is True else f"cannot classify how `{ast.unparse(arg)[:60]}` is computed"))
 
 
+def _memoised_converter(ctx: Ctx, outer: FuncInfo, w: FuncInfo):
+    """(step, explanation) when the wrapper applies a memoising stand-in (`lru_cache(...)(cls)`, `cache(cls)`) to the raw argument
+    instead of the converter itself: a repeated argument text then yields the *same object* as before (a list a task has
+    mutated, a stale module attribute) rather than the value of this command's own text"""
+    p0 = w.param_names()[0] if w.param_names() else None
+    for n in ctx.distinct_sites(ctx.nodes(w, lambda n: n.op == "call" and isinstance(n.ast.func, ast.Name) and len(n.ast.args) == 1
+                                          and isinstance(n.ast.args[0], ast.Name) and n.ast.args[0].id == p0)):
+        v = ctx.vals.resolve(outer, n.ast.func)
+        if isinstance(v, ast.Call):
+            names = {ctx.an.scope(outer).callee(x).name.rpartition(".")[2] for x in ast.walk(v) if isinstance(x, ast.Call)}
+            if names & {"lru_cache", "cache", "cached", "memoize"}:
+                return n, (f"`{ast.unparse(n.ast.func)}` is `{ast.unparse(v)[:60]}`: conversions are remembered per argument text, a repeated command receives the object "
+                           "an earlier command's task may have mutated (or a stale resolved function), not the value of its own command line")
+    return None
+
+
+_AWAITABLE_EXT = ("Event.wait", "Semaphore.acquire", "Lock.acquire", "Condition.wait", "Queue.get", "Queue.put", "Queue.join", "gather", "sleep", "wait_for", "wait", "shield")
+
+
+def r_async_declared(ctx: Ctx, rule: str):
+    """The session awaits the result of a command only when `iscoroutinefunction(member)` says so: a pool member that waits must
+    be an `async def` - a plain method handing back a coroutine is called, never awaited, and answered with the coroutine's repr."""
+    rep = ctx.rep
+    rep.rule(rule, "ASYNC-DECLARED: every public method of the pool classes that hands back an awaitable (returns the un-awaited call of a "
+                   "coroutine function / of Event.wait, gather, ..., or is annotated Coroutine/Awaitable) is a coroutine function; the waiting "
+                   "commands flush, gather_and_close and until_closed are coroutine functions")
+    seen = 0
+    for c in ctx.pool_classes:
+        for nm, f in c.methods.items():
+            if nm.startswith("_") or f.kind not in ("method", "function", None, "") and f.kind in ("property", "getter", "setter"):
+                continue
+            if nm in ("flush", "gather_and_close", "until_closed"):
+                seen += 1
+                rep.ob(rule, f"the waiting command {nm} is a coroutine function (the session awaits it)", f.is_async, func=f, construct=f"def {nm}",
+                       detail="" if f.is_async else f"`{nm}` is a plain method now: return_or_exception calls it without awaiting and replies with the repr of the coroutine, at once")
+            if f.is_async:
+                continue
+            sc = ctx.an.scope(f)
+            bad = None
+            ann = f.node.returns
+            if ann is not None and any(isinstance(x, ast.Name) and x.id in ("Coroutine", "Awaitable", "Future", "Task") for x in ast.walk(ann)):
+                bad = (f.node, f"annotated `{ast.unparse(ann)[:40]}`")
+            for r in sc._own_nodes():
+                if bad is not None or not isinstance(r, ast.Return) or r.value is None:
+                    continue
+                for _fr, _env, v in ctx.vals.leaves(f, None, r.value):
+                    if isinstance(v, ast.Call):
+                        cal = ctx.an.scope(_fr).callee(v)
+                        if (cal.kind == "pkg" and cal.targets and all(t.is_async for t in cal.targets)) or \
+                                (cal.kind == "ext" and cal.name.rpartition(".")[2] in {x.rpartition(".")[2] for x in _AWAITABLE_EXT} and
+                                 any(cal.name.endswith(x) for x in _AWAITABLE_EXT)):
+                            bad = (r, f"returns the un-awaited `{ast.unparse(v)[:50]}`")
+            if bad is not None:
+                rep.ob(rule, "a public pool method that hands back an awaitable is declared async", False, func=f, construct=bad[0],
+                       detail=f"{f.short} {bad[1]}: over the control interface it is called but never awaited")
+    rep.floor(rule, "waiting commands of the pool classes", seen, 3)
+
+
+def r_fresh_conversion(ctx: Ctx, rule: str):
+    rep = ctx.rep
+    rep.rule(rule, "FRESH-CONVERSION: the argparse type wrapper applies the annotation's converter itself to the raw argument text of this "
+                   "command (no memoising stand-in in between), so every command gets the value converted from its own command line")
+    outer = ctx.prog.functions.get(f"{PARSER_MOD}._get_arg_type_wrapper")
+    if outer is None:
+        raise AnalysisError("anchor: control.parser._get_arg_type_wrapper missing")
+    inner = list(ctx.an.scope(outer).nested.values())
+    rep.floor(rule, "wrapper function inside _get_arg_type_wrapper", len(inner), 1)
+    cls_p = outer.param_names()[0]
+    for w in inner:
+        memo = _memoised_converter(ctx, outer, w)
+        if memo is not None:
+            rep.ob(rule, "each argument text is converted afresh by the annotation's own converter", False, node=memo[0], detail=memo[1])
+            continue
+        p0 = w.param_names()[0]
+        calls = ctx.distinct_sites(ctx.nodes(w, lambda n: n.op == "call" and len(n.ast.args) == 1 and isinstance(n.ast.args[0], ast.Name) and n.ast.args[0].id == p0
+                                             and not n.ast.keywords and isinstance(n.ast.func, ast.Name)))
+        direct = [c for c in calls if isinstance(ctx.vals.resolve(outer, c.ast.func), ast.Name) and ctx.vals.resolve(outer, c.ast.func).id == cls_p]
+        rep.ob(rule, "each argument text is converted afresh by the annotation's own converter", True if direct else None, func=w,
+               construct=direct[0] if direct else "(conversion call not found)")
+
+
 # ---------------------------------------------------------------------- R18.3
 def r_containment(ctx: Ctx, rule: str):
     rep = ctx.rep
@@ -418,6 +499,10 @@ def r_containment(ctx: Ctx, rule: str):
     for w in inner:
         wg = ctx.an.cfg(w)
         conv = ctx.nodes(w, lambda n: n.op == "call" and n.callee is not None and n.callee.kind == "user")
+        memo = _memoised_converter(ctx, outer, w)
+        if memo is not None:
+            rep.ob(rule, "each argument text is converted afresh by the annotation's own converter", False, node=memo[0], detail=memo[1])
+            continue
         rep.floor(rule, "conversion call in the wrapper", len(ctx.distinct_sites(conv)), 1)
         for x in [x for x in wg.raise_exits.values() if x.pred]:
             ok = any(ctx.hier.is_sub(x.tok[0], a) for a in allowed)
